@@ -297,19 +297,94 @@ type zeroCase struct {
 	p    *proto
 	ctx  bool
 	name string
+	// MAX-RCV-SIZE cases
+	tr        string
+	objListen bool
 }
 
 func zeroCases() []zeroCase {
 	var cs []zeroCase
 	for _, p := range protos {
-		for _, n := range []string{mangos.OptionRecvDeadline, mangos.OptionSendDeadline, mangos.OptionSurveyTime} {
-			cs = append(cs, zeroCase{p, false, n})
+		for _, n := range []string{mangos.OptionRecvDeadline, mangos.OptionSendDeadline, mangos.OptionSurveyTime, mangos.OptionRetryTime} {
+			cs = append(cs, zeroCase{p: p, name: n})
 			if p.hasCtx {
-				cs = append(cs, zeroCase{p, true, n})
+				cs = append(cs, zeroCase{p: p, ctx: true, name: n})
 			}
 		}
 	}
+	// MAX-RCV-SIZE 0 "removes the limit": a message larger than the default limit arrives
+	for _, tr := range trans {
+		if tr == "inproc" {
+			continue // documented not to honour the limit at all
+		}
+		for _, l := range []bool{true, false} {
+			cs = append(cs, zeroCase{p: protoByName("pair"), name: mangos.OptionMaxRecvSize, tr: tr, objListen: l})
+		}
+	}
 	return cs
+}
+
+func runZeroMaxRecv(w *wctx, z zeroCase) {
+	side := "dialing"
+	if z.objListen {
+		side = "listening"
+	}
+	call := fmt.Sprintf("pair.SetOption(%q,0); %s over %s; peer sends 2 MiB", z.name, side, z.tr)
+	if !w.begin(call) {
+		return
+	}
+	in := "object: pair.NewSocket(); calls: " + call + "; pair.Recv()"
+	big := make([]byte, 2<<20)
+	try := func(set bool) (got bool, setErr error, hung bool) {
+		c, err := connectRetry(z.p, z.tr, z.objListen, func(obj mangos.Socket) {
+			if set {
+				setErr = obj.SetOption(z.name, 0)
+			}
+		})
+		if err != nil {
+			w.setupErr(err)
+			return false, setErr, false
+		}
+		defer func() { go c.close() }()
+		if setErr != nil {
+			return false, setErr, false
+		}
+		wait := 10 * time.Second
+		if !set {
+			wait = 300 * time.Millisecond
+		}
+		guard(func() {
+			_ = c.obj.SetOption(mangos.OptionRecvDeadline, wait)
+			_ = c.peer.SetOption(mangos.OptionSendDeadline, 5*time.Second)
+		})
+		var serr, rerr error
+		var b []byte
+		if g := guard(func() { serr = c.peer.Send(big) }); g.bad() || serr != nil {
+			return false, nil, g.hung
+		}
+		g := guard(func() { b, rerr = c.obj.Recv() })
+		return rerr == nil && len(b) == len(big), nil, g.hung
+	}
+	got, setErr, hung := try(true)
+	switch {
+	case setErr != nil:
+		w.count("zero-not-accepted")
+		return
+	case hung:
+		w.fail(fmt.Sprintf("zero-maxrecv-hang:%s", z.tr), "hang", in, "Recv did not return within %v although a 10 s deadline is set", callWatchdog)
+		return
+	case !got:
+		w.fail(fmt.Sprintf("zero-maxrecv-still-limited:%s:%s", z.tr, side), "fail", in,
+			"MAX-RCV-SIZE 0 was accepted (no limit) but a 2 MiB message does not arrive within 10 s")
+		return
+	}
+	w.nontrivial(fmt.Sprintf("maxrecv0|%s|%s", z.tr, side))
+	w.count("large-message-arrives-without-limit")
+	// not asserted, only shows that the test discriminates: with the default 1 MiB limit
+	// the same message is dropped
+	if got, _, _ := try(false); !got {
+		w.count("default-limit-drops-it")
+	}
 }
 
 type sendRecver interface {
@@ -319,6 +394,10 @@ type sendRecver interface {
 }
 
 func runZeroCase(w *wctx, z zeroCase) {
+	if z.name == mangos.OptionMaxRecvSize {
+		runZeroMaxRecv(w, z)
+		return
+	}
 	p := z.p
 	id := p.name
 	if z.ctx {
@@ -408,7 +487,40 @@ func runZeroCase(w *wctx, z zeroCase) {
 			w.fail(fmt.Sprintf("zero-deadline-timeout:%s:%s", id, z.name), "fail", in, "Recv returned %s although the accepted value 0 means no limit", errName(rerr))
 			return
 		}
+		if z.name == mangos.OptionSurveyTime && rerr == mangos.ErrProtoState {
+			// a survey was sent successfully on this very socket/context just before, so
+			// ErrProtoState can only mean that the survey is already over
+			w.fail(fmt.Sprintf("zero-duration-expires:%s:%s", id, z.name), "fail", in,
+				"a survey was just sent, SURVEY-TIME 0 is documented as infinite, but Recv returns ErrProtoState (survey already expired)")
+			return
+		}
 		w.count("recv-returned-" + errName(rerr))
+	case mangos.OptionRetryTime:
+		// zero = "no automatic retries": the peer REP sees the request once; a second copy
+		// (the peer never replies) would be a retransmission
+		if p.style != stClient {
+			return
+		}
+		if e, blocked := send(); blocked || e != nil {
+			w.count("could-not-send-request")
+			return
+		}
+		guard(func() { _ = c.peer.SetOption(mangos.OptionRecvDeadline, 2*time.Second) })
+		var b []byte
+		var rerr error
+		if g := guard(func() { b, rerr = c.peer.Recv() }); g.bad() || rerr != nil || string(b) != "zero" {
+			w.count("request-did-not-arrive")
+			return
+		}
+		guard(func() { _ = c.peer.SetOption(mangos.OptionRecvDeadline, 400*time.Millisecond) })
+		g := guard(func() { b, rerr = c.peer.Recv() })
+		if !g.bad() && rerr == nil && string(b) == "zero" {
+			w.fail(fmt.Sprintf("zero-retry-resends:%s", id), "fail", in,
+				"RETRY-TIME 0 is documented as no automatic retries, but the peer received the request a second time")
+			return
+		}
+		w.nontrivial(id + "|" + z.name)
+		w.count("no-retransmission")
 	}
 }
 
@@ -426,7 +538,7 @@ func zeroScenario() *scenario {
 func registerAll() {
 	register(gridScenario("option-grid-sockets-contexts", func(string) []objKind { return socketKinds() }, 14))
 	register(gridScenario("option-grid-dialers-listeners", endpointKinds, 14))
-	register(gridScenario("option-grid-pipes", func(string) []objKind { return pipeKinds() }, 12))
+	register(gridScenario("option-grid-pipes", pipeKinds, 12))
 	register(epStartScenario())
 	register(epInhScenario())
 	register(ctxScenario())
